@@ -242,6 +242,21 @@ end
     gives inside the template) to the template's output. -/
 abbrev Templates := Nat → List Nat → List Nat
 
+/-- What a page template does with its node, as far as output text is concerned: a sequence of literal
+    template output (markup, fixed words such as "Footnotes", "Table") and interpolations of the node's rendered
+    content `{{ obj }}` / `tal:content="self"` (possibly several times, possibly never). -/
+inductive Piece where
+  | lit (p : List Nat)
+  | content
+
+def renderPieces (x : List Nat) : List Piece → List Nat
+  | [] => []
+  | .lit p :: ps => p ++ renderPieces x ps
+  | .content :: ps => x ++ renderPieces x ps
+
+/-- the template family given by a table of pieces -/
+def pieceTemplates (tpl : Nat → List Piece) : Templates := fun k x => renderPieces x (tpl k)
+
 mutual
 /-- `str(node)` for an element: the `for child in childNodes` loop of `Renderable.__str__` -/
 def renderChildren (T : Templates) : List RNode → List Nat
